@@ -16,7 +16,13 @@ import (
 // in-memory key/value store) after every block, dropped, and re-opened from the database alone.
 // After every re-open the root must equal the protocol commitment of the model and every key must
 // read back the model value.
-func vxCommitAndReopen(t *Trie, rdb *rawdb.Database, disk *memory.Database, id trieutils.TrieID, height uint8) (*Trie, felt.Felt) {
+// Commit collects dirty nodes with a goroutine-per-child collector when more than 100 updates are
+// pending; largeBatch puts the trie's update counter past that threshold instead of performing 101
+// updates, so both collectors are covered (the goroutines run on the engine's scheduler).
+func vxCommitAndReopen(t *Trie, rdb *rawdb.Database, disk *memory.Database, id trieutils.TrieID, height uint8, largeBatch bool) (*Trie, felt.Felt) {
+	if largeBatch {
+		t.pendingUpdates = 101
+	}
 	root, nodes := t.Commit()
 	if nodes != nil {
 		batch := disk.NewBatch()
@@ -35,9 +41,9 @@ func VxC01Trie2CommitReopen() {
 	nkeys, blocks := 2, 2
 	if vx.Thorough() {
 		blocks, height = 3, 8
-		vx.Bound("height 8; 2 distinct arbitrary keys; 3 blocks: block 1 = 2 operations, blocks 2..3 = 1 operation each (Update(k_i, v), v arbitrary non-zero or zero); commit through rawdb+memory store and re-open after every block; Hash and Get after every re-open")
+		vx.Bound("height 8; 2 distinct arbitrary keys; 3 blocks: block 1 = 2 operations, blocks 2..3 = 1 operation each (Update(k_i, v), v arbitrary non-zero or zero); commit (block 1: sequential or parallel node collector) through rawdb+memory store and re-open after every block; Hash and Get after every re-open")
 	} else {
-		vx.Bound("height 4; 2 distinct arbitrary keys; 2 blocks: block 1 = 2 operations, block 2 = 1 operation (Update(k_i, v), v arbitrary non-zero or zero); commit through rawdb+memory store and re-open after every block; Hash and Get after every re-open")
+		vx.Bound("height 4; 2 distinct arbitrary keys; 2 blocks: block 1 = 2 operations, block 2 = 1 operation (Update(k_i, v), v arbitrary non-zero or zero); commit (block 1: sequential or parallel node collector) through rawdb+memory store and re-open after every block; Hash and Get after every re-open")
 	}
 	trieutils.VxCaseSplitFirstSetBit()
 	keysF := make([]felt.Felt, nkeys)
@@ -94,7 +100,12 @@ func VxC01Trie2CommitReopen() {
 			vxCheckShape(t.root, model, height)
 		}
 		var committed felt.Felt
-		t, committed = vxCommitAndReopen(t, rdb, disk, id, uint8(height))
+		large := false
+		if b == 0 && vx.Choice("large-batch", 2) == 1 {
+			large = true
+			vx.Cover("parallel-collector")
+		}
+		t, committed = vxCommitAndReopen(t, rdb, disk, id, uint8(height), large)
 		want := vxSpecRoot(model, height)
 		vx.Assert(committed.Equal(&want), "committed-root-equals-protocol-commitment")
 		for i := range keysF {
